@@ -578,6 +578,11 @@ impl Ctx {
         }
     }
 
+    /// `--sub <name>` restricts a run to one sub-check (development aid)
+    pub fn filtered_out(&self, sub: &str) -> bool {
+        matches!(std::env::var("VCHECK_ONLY_SUB"), Ok(only) if only != sub)
+    }
+
     pub fn quick(&self) -> bool {
         self.tier == Tier::Quick
     }
@@ -627,7 +632,7 @@ impl Ctx {
         max_len: usize,
         decode: &(dyn Fn(&mut Src) -> Vec<u8> + Sync),
     ) {
-        if self.stopped() {
+        if self.stopped() || self.filtered_out(sub.name) {
             return;
         }
         let shards = self.threads.max(1);
@@ -710,7 +715,7 @@ impl Ctx {
         distinct_by_construction: bool,
         gen: &(dyn Fn(usize, usize, &mut dyn FnMut(&[u8]) -> bool) + Sync),
     ) {
-        if self.stopped() {
+        if self.stopped() || self.filtered_out(sub.name) {
             return;
         }
         let shards = self.threads.max(1);
@@ -746,6 +751,9 @@ impl Ctx {
 
     /// Single-threaded evaluation of explicit cases (regression tier, small fixed lists).
     pub fn cases(&self, sub: &Sub, list: &[Vec<u8>]) {
+        if self.filtered_out(sub.name) {
+            return;
+        }
         let mut local = Local::new(self, sub.name);
         for c in list {
             if let Err(f) = local.eval(sub, c) {
